@@ -657,7 +657,10 @@ def registry_assumptions(prop):
         base = j.get("all", []) + j.get(prop, [])
     # mechanical scan of the harness crate for assumes outside preconditions and for stubs
     scan = []
+    used = {"obl_" + m[2:] + ".rs" for m in MODULE_FEATURES} | ({"obl_codes.rs"} if "m_golomb" in MODULE_FEATURES else set())
     for f in sorted((CONTRACTS / "src").glob("*.rs")):
+        if f.name.startswith("obl_") and f.name not in used:
+            continue
         txt = f.read_text()
         for m in re.finditer(r"#\[kani::stub\(([^)]*)\)\]", txt):
             scan.append(f"kani::stub in {f.name}: {m.group(1).strip()}")
